@@ -3,7 +3,7 @@
 import json,re,os
 rows=[]
 for line in open('/verif/seeded/MATRIX.txt'):
-    m=re.match(r'(C\d\d-\d): (.*)',line.strip())
+    m=re.match(r'(C\d\d-\d+): (.*)',line.strip())
     if not m: continue
     sid,res=m.groups()
     meta=json.load(open('/verif/seeded/%s/meta.json'%sid))
